@@ -69,7 +69,8 @@ MODS = [None, None, {"op": "extra_nested"}, {"op": "mo_aminusb"}, {"op": "gen_co
         {"op": "set", "attr": "title", "value": "changed by the caller"}, {"op": "set", "attr": "lot", "value": "mp2"},
         {"op": "set", "attr": "obasis_name", "value": "cc-pvdz"}, {"op": "set", "attr": "g_rot", "value": 2.0},
         {"op": "mo_aminusb_zero"}, {"op": "conv_signs"}, {"op": "conv_signs"}, {"op": "asym_noise"}, {"op": "asym_noise"},
-        {"op": "known_extras"}, {"op": "known_extras"},
+        {"op": "known_extras"}, {"op": "known_extras"}, {"op": "tiny_cube_values"}, {"op": "mo_aminusb_neg"}, {"op": "unsorted_centres"},
+        {"op": "unsorted_centres"}, {"op": "title", "value": "a very long title " * 9},
         {"op": "gen_shell", "angmoms": [1, 0]}, {"op": "gen_shell", "angmoms": [0, 1]}, {"op": "gen_shell", "angmoms": [0, 0, 0]},
         {"op": "gen_shell", "angmoms": [2, 1]}]
 # two mods at once (e.g. occs_aminusb together with the optional extras a writer looks for)
@@ -307,8 +308,11 @@ def run_threads(trace, rng=None, stats=None):
             baton.seam_point("observe")
 
     fns = [make(i) for i in range(len(calls))] + [observer]
-    with seams.Installed(disk), sched.Steps(sched=baton) as st:
-        done = baton.run(fns)
+    try:
+        with seams.Installed(disk), sched.Steps(sched=baton) as st:
+            done = baton.run(fns)
+    except sched.SchedulerStall as exc:
+        return [_v("stall_under_interleaving", str(exc), trace, "stall")], baton, 0
     for c in done:
         if c.error is not None:
             out.append(_v("client_died", f"client {c.idx}: {type(c.error).__name__}: {c.error}", trace, type(c.error).__name__))
@@ -359,7 +363,7 @@ def gen_trace(rng):
     if wfn_like and rng.random() < 0.12:
         recipe["mods"] = copy.deepcopy(rng.choice(MOD_PAIRS))
         mod = None
-    if mod is not None and (mod["op"] in ("extra_nested", "title", "set", "asym_noise", "known_extras") or recipe["file"].endswith((".fchk", ".molden.input", ".mkl", ".wfn", ".wfx", ".molden"))):
+    if mod is not None and (mod["op"] in ("extra_nested", "title", "set", "asym_noise", "known_extras", "tiny_cube_values") or recipe["file"].endswith((".fchk", ".molden.input", ".mkl", ".wfn", ".wfx", ".molden"))):
         recipe["mods"] = [mod]
     def call():
         fmt = rng.choice(fmts) if rng.random() < 0.85 else rng.choice(sorted(OUTNAME))
